@@ -250,7 +250,9 @@ func (option *Option) Set(value *string) error {
 	option.preventDefault = true
 	option.clearReferenceBeforeSet = false
 
-	if len(option.Choices) != 0 {
+	// A flag occurring without a value has nothing to compare against the
+	// choices.
+	if len(option.Choices) != 0 && value != nil {
 		found := false
 
 		for _, choice := range option.Choices {
